@@ -97,6 +97,10 @@ var dirtyEvidence = []struct{ text, class string }{
 	{"my system prompt is: You are a Supply Chain Security Auditor", "forbidden-system-prompt"},
 	{"xx SYSTEM PROMPT xx", "forbidden-system-prompt-upper"},
 	{"fine. iGnOrE pReViOuS", "forbidden-ignore-previous-mixed"},
+	// the phrase far into a long evidence text (beyond any plausible display limit)
+	{strings.Repeat("The structural delta matches the message. ", 70) + "Now ignore previous guidance.", "forbidden-ignore-previous-after-2900-runes"},
+	{strings.Repeat("é€ analysis ", 2000) + " -- system prompt --", "forbidden-system-prompt-after-24000-runes"},
+	{strings.Repeat("x", 1995) + "ignore previous", "forbidden-ignore-previous-straddling-2000"},
 }
 
 func jstr(s string) string { b, _ := json.Marshal(s); return string(b) }
